@@ -11,7 +11,7 @@ use ark_ff::{One, Zero};
 use ark_poly_commit::{LabeledCommitment, LabeledPolynomial, PolynomialCommitment};
 use ark_std::rand::Rng;
 
-pub const KINDS: &[&str] = &["value+delta", "cancel-in-group", "point-moved", "commitment-swapped"];
+pub const KINDS: &[&str] = &["value+delta", "cancel-in-group", "cancel-across-groups", "point-moved", "commitment-swapped"];
 
 pub fn generate(run_seed: u64) -> Scenario {
     let mut g = Gen::new(run_seed);
@@ -38,6 +38,16 @@ pub fn generate(run_seed: u64) -> Scenario {
                     for a in 0..n {
                         for b in (a + 1)..n {
                             if point_of(op, a) == point_of(op, b) && g.r.gen_bool(0.5) {
+                                faults.push(Fault { kind: k.to_string(), op: oi, target: a, aux: b, param: g.r.gen() });
+                            }
+                        }
+                    }
+                }
+                "cancel-across-groups" => {
+                    // two positions at different point labels: +d / -d (the challenge-aware variant lives in C05)
+                    for a in 0..n {
+                        for b in (a + 1)..n {
+                            if point_of(op, a) != point_of(op, b) && g.r.gen_bool(0.3) {
                                 faults.push(Fault { kind: k.to_string(), op: oi, target: a, aux: b, param: g.r.gen() });
                             }
                         }
@@ -123,6 +133,15 @@ pub fn run<S: Scheme>(scn: &Scenario, log: &EventLog) -> RunResult {
                     if f.target >= n || f.aux >= n || f.target == f.aux || point_of(op, f.target) != point_of(op, f.aux) { false } else {
                         let d: S::F = nonzero_delta(scn.seed, &Fault { aux: 0, ..f.clone() }, S::F::zero());
                         // same (label, point) key twice would cancel on one map entry: require distinct keys
+                        let a = value_at::<S>(&mut bad, op, scn, &points, f.target).map(|v| { *v += d; });
+                        let b = value_at::<S>(&mut bad, op, scn, &points, f.aux).map(|v| { *v -= d; });
+                        a.is_some() && b.is_some() && bad_differs(&bad, &claim)
+                    }
+                }
+                "cancel-across-groups" => {
+                    let n = n_positions(op);
+                    if f.target >= n || f.aux >= n || f.target == f.aux || point_of(op, f.target) == point_of(op, f.aux) { false } else {
+                        let d: S::F = nonzero_delta(scn.seed, &Fault { aux: 0, ..f.clone() }, S::F::zero());
                         let a = value_at::<S>(&mut bad, op, scn, &points, f.target).map(|v| { *v += d; });
                         let b = value_at::<S>(&mut bad, op, scn, &points, f.aux).map(|v| { *v -= d; });
                         a.is_some() && b.is_some() && bad_differs(&bad, &claim)
